@@ -200,8 +200,7 @@ def _assemble(ctx: Ctx, bulk: gb.Bulk, height: int, prev_hash: bytes, stamp: int
         block.assert_valid_witness_commitment()
         block.assert_valid(REGTEST_POW_LIMIT_BITS)
     for what, x in [("block", block)] + [("tx", t) for t in txs]:  # C18's size identities, for W5's lens
-        whole, stripped = len(x.serialize(include_witness=True, check_validity=False)), len(x.serialize(include_witness=False, check_validity=False))
-        ctx.check("C18", "size-identities", (x.size, x.weight, x.vsize) == (whole, 3 * stripped + whole, -(-(3 * stripped + whole) // 4)), lambda: f"{what}: size/weight/vsize {(x.size, x.weight, x.vsize)} for {whole}/{stripped} bytes", site=what)
+        _size_identities(ctx, what, x)
     elements = {s for s in cb.out_scripts if s and s[0] != 0x6A}
     prev_scripts = []
     for g in gens:
@@ -274,6 +273,13 @@ def _rebuilt(tx: Any, **changes: Any) -> Any:
     return Tx(f["version"], f["lock_time"], f["vin"], f["vout"], check_validity=False)
 
 
+def _size_identities(ctx: Ctx, what: str, x: Any) -> None:
+    """C18's size identities (checked under that property's lens): size is the length of the bytes, weight three times
+    the stripped length plus the whole, vsize its quarter rounded up -- for a transaction and for a block, valid or not."""
+    whole, stripped = len(x.serialize(include_witness=True, check_validity=False)), len(x.serialize(include_witness=False, check_validity=False))
+    ctx.check("C18", "size-identities", (x.size, x.weight, x.vsize) == (whole, 3 * stripped + whole, -(-(3 * stripped + whole) // 4)), lambda: f"{what}: size/weight/vsize {(x.size, x.weight, x.vsize)} for {whole}/{stripped} bytes", site=what)
+
+
 def _audit(ctx: Ctx, bulk: gb.Bulk, m: Mined) -> None:
     """Tampered copies of a valid block must be invalid; the mutation must be reported."""
     from dataclasses import replace  # noqa: PLC0415
@@ -299,6 +305,13 @@ def _audit(ctx: Ctx, bulk: gb.Bulk, m: Mined) -> None:
             ok, _ = _guarded(ctx, name, fn)
             ctx.check(P, "mutation-reported", not ok, f"{len(txs)}+{len(extra)} transactions pass {name}", site=name)
         ctx.probe(f"mutation-level-{'leaf' if len(extra) == 1 else 'inner'}")
+    if txs[0].vin[0].script_witness.stack and ch.draw(2, "audit.strip-cb-witness"):
+        # what a relay that strips the coinbase witness (or a parser asked not to check) holds: whether it is valid is the
+        # commitment's business above; its sizes are what its bytes say
+        cb_in = txs[0].vin[0]
+        stripped_cb = _rebuilt(txs[0], vin=[TxIn(cb_in.prev_out, cb_in.script_sig, cb_in.sequence, None)])
+        _size_identities(ctx, "block/coinbase-witness-stripped", Block(header, [stripped_cb, *txs[1:]], check_validity=False))
+        ctx.fault("tamper-strip-coinbase-witness")
     for _ in range(1 + ch.draw(3, "audit.n")):
         kind = ch.pick(["root-bit", "swap", "drop", "replace", "witness", "nonce", "commitment"], "audit.kind")
         new_header, new = header, list(txs)
@@ -327,6 +340,7 @@ def _audit(ctx: Ctx, bulk: gb.Bulk, m: Mined) -> None:
         else:
             continue
         bad = Block(new_header, new, check_validity=False)
+        _size_identities(ctx, f"block/{kind}", bad)
         ok, _ = _guarded(ctx, "block.assert_valid", lambda bad=bad: bad.assert_valid(REGTEST_POW_LIMIT_BITS))
         ctx.check(P, "mismatch-makes-block-invalid", not ok, f"block valid after tamper '{kind}' at {i}", site=kind)
         if kind in ("witness", "nonce"):
@@ -914,6 +928,12 @@ def _plans(tier: str) -> list[Any]:
 
 
 CHECKS = {
+    "C18": {
+        "level": "exploration",
+        "plans": lambda tier: [__import__("btcsim.core.runner", fromlist=["Plan"]).Plan("chain", {"part": "relay", "faults": False}, share=0.5, chunk=10, label="chain/block-sizes")],
+        "rule": "chain: mined blocks of 1-41 transactions and their tampered copies (a transaction swapped, dropped, replaced, its witness malleated, the coinbase witness replaced or stripped) against the size identities of their own bytes.",
+        "assumptions": ["blocks are built or altered in memory (check_validity=False): the identities are asked of invalid blocks too"],
+    },
     "C17": {
         "level": "exploration",
         "plans": _plans,
